@@ -84,7 +84,9 @@ pub fn campaign(id: &str, tier: Tier) -> SeqCampaign {
                 large_device: 0,
                 memory_limit: 0,
                 invalid: 1,
-                ttl_ops: 1,
+                // TTL keys that are flushed, expire (virtual clock) and are then met by increments,
+                // swaps and re-creations: the lazy-expiry paths retire durable extents too
+                ttl_ops: 5,
                 range_ops: 1,
                 ts_explicit: 1,
                 multi_block: 10,
@@ -95,7 +97,7 @@ pub fn campaign(id: &str, tier: Tier) -> SeqCampaign {
                 sleep: 1,
                 long_keys: false,
                 json: 0,
-                counters: 1,
+                counters: 4,
                 ..Bias::default()
             };
             SeqCampaign {
